@@ -279,6 +279,11 @@ def run(tier):
                           dict(tail=res.out[-2500:]))
         elif not res.ok:
             raise C.Machinery('TLC failed on OptionFile design: ' + res.out[-1500:])
+    # the writer variant the code had before fix 5540ff0 (loads numbered in attachment order) must stay refuted
+    rb = C.tlc('OptionFile', 'MC_OptionFile_before_fix_loads.cfg', timeout=900, name='before-fix-loads')
+    if rb.violated != 'RoundTrip':
+        raise C.Machinery('TLC no longer refutes the writer variant LoadsInKindOrder = FALSE: ' + rb.out[-800:])
+    chk.cov['refuted_variant_loads_numbered_in_attachment_order'] = rb.violated
     recs = {}
     rsel = C.rng('c15-select')
     for cfg, sim, frac in RUNS[tier]:
